@@ -14,6 +14,7 @@ import X86Model.Driver.Regs
 import X86Model.Driver.Tlb
 import X86Model.Driver.Recursive
 import X86Model.Driver.Idt
+import X86Model.Driver.GeneralHandler
 
 open X86 X86.Driver
 
@@ -21,7 +22,7 @@ open X86 X86.Driver
 structure DState where
   mapper : MState := {}
 
-def statelessHandlers : List Handler := [handleC03, handleC04, handleC05, handleC06, handleC07, handleC19, handleC08, handleC15, handleC14, handleC18, handleC17, handleC16, handleC11, handleC20, handleC12]
+def statelessHandlers : List Handler := [handleC03, handleC04, handleC05, handleC06, handleC07, handleC19, handleC08, handleC15, handleC14, handleC18, handleC17, handleC16, handleC11, handleC20, handleC12, handleC13]
 
 def dispatch : SHandler DState := fun cfg op a impl st =>
   match statelessHandlers.firstM (fun h => h cfg op a impl) with
